@@ -220,6 +220,7 @@ type Frame struct {
 	edgeCond  map[[2]*ssa.BasicBlock]*Term
 	allocObjs map[*ssa.Alloc]types.Object
 	pointBlock map[int]*ssa.BasicBlock
+	curSite   *ssa.Call
 }
 
 type edge struct {
